@@ -34,7 +34,10 @@ inductive MB where
 abbrev MEnv := List MB
 
 structure MCfg where
+  /-- `cartesian` (math, comparison, object entries) as written -/
   cartDropsErr : Bool := false
+  /-- `Path::combinations` (index filters of a compound path) as written -/
+  pathDropsErr : Bool := false
 
 /-- what the right/inner stream contributes when the left/outer stream has ended abnormally
 with `s` (an `Err` item): as written, the item is paired with every item of the inner stream. -/
@@ -132,7 +135,7 @@ where
     | .done => ⟨[], .done⟩
     | .fuel => ⟨[], .fuel⟩
     | s =>
-      if cfg.cartDropsErr then
+      if cfg.pathDropsErr then
         match restO.vals, restO.stop with
         | [], .done => ⟨[], .done⟩
         | [], .fuel => ⟨[], .fuel⟩
